@@ -62,4 +62,29 @@ static void L_cascade(long long T, int hw, int hd, int hH, int hM, int hS)
 	__CPROVER_assert(r.w >= 0 && r.d >= 0 && r.H >= 0 && r.M >= 0 && r.S >= 0, "L_cascade: no negative component");
 }
 #endif
+
+#if !defined VERIF_NATIVE
+/* C06: the number printer behind every duration specifier: the decimal string ltostr() writes, read back digit by digit, is the
+ * value (sign included).  Checked on the real function in windows of the argument (harness-level, bounded). */
+static void L_ltostr(long int v)
+{
+	char buf[24];
+	size_t n = ltostr(buf, sizeof(buf), v, -1, 0U);
+	size_t i = 0;
+	int neg = 0;
+	unsigned long acc = 0UL;
+	__CPROVER_assert(n >= 1 && n <= 21, "L_ltostr: between 1 and 21 bytes are written");
+	if (buf[0] == '-') {
+		neg = 1;
+		i = 1;
+	}
+	__CPROVER_assert(i < n, "L_ltostr: at least one digit");
+	for (; i < n && i < 22; i++) {
+		__CPROVER_assert(buf[i] >= '0' && buf[i] <= '9', "L_ltostr: only digits after the optional sign");
+		acc = acc * 10UL + (unsigned long)(buf[i] - '0');
+	}
+	__CPROVER_assert(neg == (v < 0), "L_ltostr: a minus sign exactly for negative values");
+	__CPROVER_assert((neg ? -(long int)acc : (long int)acc) == v, "L_ltostr: the printed decimal number is the value");
+}
+#endif
 #endif
